@@ -172,3 +172,105 @@ V("C05", "C05.R7", "c05-linelen-wrong-option", "shroud/wrapf.py",
   "self.linelen = newlibrary.options.C_line_length", "fire", "Wrapf.linelen")
 V("C05", "C05.R8", "c05-visitor-removed", "shroud/todict.py",
   "    def visit_TypedefNode(self, node):", "    def xvisit_TypedefNode(self, node):", "fire", "TypedefNode")
+
+# ---------------------------------------------------------------------------
+# C07
+# ---------------------------------------------------------------------------
+V("C07", "C07.R1", "c07-module-cache", "shroud/util.py",
+  '''fmt = string.Formatter()
+
+def wformat(template, dct):''',
+  '''fmt = string.Formatter()
+_written_files = []
+
+def wformat(template, dct):''', "silent")
+V("C07", "C07.R1", "c07-module-cache-mutated", "shroud/util.py",
+  '''        self.log.write("Close %s\\n" % fname)
+        print("Wrote", fname)''',
+  '''        self.log.write("Close %s\\n" % fname)
+        _written_files.append(fname)
+        print("Wrote", fname)
+
+_written_files = []
+class _Unused(object):
+    pass''', "fire", "util._written_files")
+V("C07", "C07.R1", "c07-class-level-state-back", "shroud/wrapc.py",
+  '''    def __init__(self, newlibrary, config, splicers):
+        """
+        Args:
+            newlibrary - ast.LibraryNode
+            config -
+            splicers -
+        """
+        self.capsule_code = {}
+        self.capsule_order = []
+        self.capsule_include = {}  # includes needed by C_memory_dtor_function
+''',
+  '''    capsule_code = {}
+    capsule_order = []
+    capsule_include = {}
+
+    def __init__(self, newlibrary, config, splicers):
+        """
+        Args:
+            newlibrary - ast.LibraryNode
+            config -
+            splicers -
+        """
+''', "fire", "wrapc.Wrapc.capsule_order")
+V("C07", "C07.R1", "c07-membership-guard-back", "shroud/whelpers.py",
+  '''        lstart=lstart, lend=lend,
+        )
+    )
+    CHelpers[name] = helper''',
+  '''        lstart=lstart, lend=lend,
+        )
+    )
+    if name not in CHelpers:
+        CHelpers[name] = helper''', "fire", "whelpers.CHelpers")
+V("C07", "C07.R1", "c07-typemap-no-reset", "shroud/typemap.py",
+  '''def initialize():
+    set_global_types({})''',
+  '''def initialize():
+    shared_typedict.clear()''', "silent")
+V("C07", "C07.R1", "c07-typemap-register-only", "shroud/typemap.py",
+  '''    set_global_types(def_types)
+
+    return def_types''',
+  '''    for _k, _v in def_types.items():
+        register_type(_k, _v)
+
+    return def_types''', "silent")
+V("C07", "C07.R2", "c07-c-twin-removed", "shroud/statements.py",
+  '''        c_pre_call=[],
+        cxx_pre_call=[''',
+  '''        cxx_pre_call=[''', "fire", "c_struct")
+V("C07", "C07.R3", "c07-timestamp", "shroud/util.py",
+  '''        fp.write("%s %s\\n" % (self.comment, fname))''',
+  '''        import time
+        fp.write("%s %s %s\\n" % (self.comment, fname, time.strftime("%Y")))''', "fire", "time")
+V("C07", "C07.R3", "c07-append-mode", "shroud/util.py",
+  'fp = open(os.path.join(directory, fname), "w")',
+  'fp = open(os.path.join(directory, fname), "a")', "fire", "open")
+V("C07", "C07.R3", "c07-environ", "shroud/main.py",
+  '''        search_path = ["."]''',
+  '''        search_path = [os.environ.get("SHROUD_PATH", ".")]''', "fire", "os.environ")
+V("C07", "C07.R4", "c07-set-iteration", "shroud/wrapc.py",
+  '''        for name in sorted(helpers.keys()):
+            self._gather_helper_code(name, done)''',
+  '''        for name in set(helpers.keys()):
+            self._gather_helper_code(name, done)''', "fire", "gather_helper_code")
+V("C07", "C07.R4", "c07-silent-unsorted-dict", "shroud/wrapc.py",
+  '''        for name in sorted(helpers.keys()):
+            self._gather_helper_code(name, done)''',
+  '''        for name in helpers.keys():
+            self._gather_helper_code(name, done)''', "silent")
+V("C07", "C07.R5", "c07-shared-default-mutated", "shroud/typemap.py",
+  '''    if language == "c":
+        # The struct from the user's library is used.
+        # XXX - if struct in class, uses class.cxx_header?
+        ntypemap.c_header = libnode.cxx_header''',
+  '''    if language == "c":
+        # The struct from the user's library is used.
+        # XXX - if struct in class, uses class.cxx_header?
+        ntypemap.c_header.extend(libnode.cxx_header)''', "fire", "c_header")
